@@ -316,6 +316,10 @@ def _obs_handler(ev):
     pass
 
 
+def _otc_ext_handler(obj, name, old, new):
+    pass
+
+
 SCENARIOS = {
     "assign-custom": lambda w: setattr(w.o, "x", 5),
     "assign-custom-invalid": lambda w: setattr(w.o, "x", -5),
@@ -376,6 +380,12 @@ SCENARIOS = {
         _obs_handler, trait("plain") | match(filter_fn)),
     "observe-unregister-parallel-match": None,
     "assign-badrepr": lambda w: setattr(w.o, "log", BadRepr()),
+    # registering under an extended name walks the links and computes
+    # their defaults
+    "otc-register-extended": lambda w: w.o.on_trait_change(
+        _otc_ext_handler, "fac.v"),
+    "observe-register-extended": lambda w: w.o.observe(
+        _obs_handler, "fac.v"),
     "observe-unregister-match": None,       # built below
 }
 
